@@ -111,6 +111,7 @@ func (t *Tracer) Await(ctx context.Context, testName string) (*Trace, error) {
 		done = result.done
 	}
 	t.mu.Unlock()
+	verifPoint("tracer.await.entered", testName)
 	if result == nil {
 		return nil, fmt.Errorf("%s: trace already cleared", testName)
 	}
